@@ -39,10 +39,10 @@ let { Color, Shape } = import! c11t
 let cat a b : String -> String -> String = sp.append a b
 let cat3 a b c : String -> String -> String -> String = cat a (cat b c)
 let obs_str x : String -> String = cat3 (prim.show_int (sp.len x)) ":" x
-rec let arr_go f xs i acc : (a -> String) -> Array a -> Int -> String -> String =
+let arr_go f xs i acc : (a -> String) -> Array a -> Int -> String -> String =
     if i #Int== ap.len xs then acc else arr_go f xs (i #Int+ 1) (cat3 acc (f (ap.index xs i)) ",")
 let obs_arr f xs : (a -> String) -> Array a -> String = cat (arr_go f xs 0 "[") "]"
-rec let map_go f m acc : (a -> String) -> Map String a -> String -> String =
+let map_go f m acc : (a -> String) -> Map String a -> String -> String =
     match m with
     | Tip -> acc
     | Bin k v l r -> map_go f r (cat (map_go f l acc) (cat3 (obs_str k) "=" (cat (f v) ",")))
@@ -115,31 +115,42 @@ fn skeleton(v: &str) -> String {
 }
 
 fn norm_err(e: &str) -> String {
+    // keep the shape of a message: drop quoted / back-quoted fragments (they hold values) and digits
     let mut o = String::new();
-    let mut last = false;
-    for c in e.chars().take(90) {
-        if c.is_ascii_digit() {
-            if !last {
+    let mut it = e.chars().peekable();
+    while let Some(c) = it.next() {
+        if c == '"' {
+            while let Some(d) = it.next() {
+                if d == '\\' {
+                    it.next();
+                } else if d == '"' {
+                    break;
+                }
+            }
+            o.push_str("\"\"");
+        } else if c == '`' {
+            while let Some(d) = it.next() {
+                if d == '`' {
+                    break;
+                }
+            }
+            o.push_str("``");
+        } else if c.is_ascii_digit() {
+            if !o.ends_with('N') {
                 o.push('N');
             }
-            last = true;
+        } else if c == '\n' {
+            o.push(' ');
+        } else if c.is_ascii_graphic() || c == ' ' {
+            o.push(c);
         } else {
-            last = false;
-            o.push(if c.is_ascii_graphic() || c == ' ' { c } else { '?' });
+            o.push('?');
+        }
+        if o.len() > 100 {
+            break;
         }
     }
-    // drop the contents of back-quoted / quoted fragments (they hold values)
-    let mut p = String::new();
-    let mut q = false;
-    for c in o.chars() {
-        if c == '`' || c == '"' {
-            q = !q;
-            p.push(c);
-        } else if !q {
-            p.push(c);
-        }
-    }
-    p
+    o
 }
 
 fn values<T: Marsh>(cx: &Cx) -> Vec<T> {
@@ -174,7 +185,11 @@ where
     let vm = cx.vm.clone();
     // gluon functions for this type
     let id_src = format!("{}\nlet f : {} -> {} = \\x -> x\nf\n", HEADER, T::gtype(), T::gtype());
-    let obs_src = format!("{}\nlet f : {} -> String = {}\nf\n", HEADER, T::gtype(), T::obs_fn());
+    let mut defs = vec![];
+    let obs_expr = T::obs_fn(&mut defs);
+    let obs_src = format!("{}\n{}\nlet f : {} -> String = {}\nf\n", HEADER, defs.join("\n"), T::gtype(), obs_expr);
+    let dbg = std::env::var("C11_DEBUG").is_ok();
+    if dbg { eprintln!("id {}", id_src.len()); }
     let mut id_fn: Option<OwnedFunction<fn(T) -> T>> =
         match vm.run_expr::<OwnedFunction<fn(T) -> T>>(&format!("c11_id_{}", salt(&name)), &id_src) {
             Ok((f, _)) => Some(f),
@@ -187,6 +202,7 @@ where
                 None
             }
         };
+    if dbg { eprintln!("obs\n{}", &obs_src[HEADER.len()..]); }
     let mut obs_fn: Option<OwnedFunction<fn(T) -> String>> =
         match vm.run_expr::<OwnedFunction<fn(T) -> String>>(&format!("c11_obs_{}", salt(&name)), &obs_src) {
             Ok((f, _)) => Some(f),
@@ -200,19 +216,30 @@ where
             }
         };
     cx.out.count(&format!("type:{}", name));
+    if std::env::var("C11_DEBUG").is_ok() {
+        eprintln!("type {}", name);
+    }
     for (i, x) in vals.iter().enumerate() {
         if !selected(cx, &name, i) {
             continue;
         }
         let val = x.val();
+        if dbg { eprintln!("val {}", val); }
         let replay = |op: &str| json!({"type": name, "index": i, "op": op, "val": val});
         cx.out.count(&format!("head:{}", T::head()));
         cx.out.class(format!("{}|{}", name, skeleton(&val)));
         // --- push, walk, get back ---------------------------------------------------------
-        let pushed = gv::catch(|| x.clone().marshal::<&Thread>(&vm));
+        // (no `RootedValue` here: rooting a NaN float panics on drop, see `child_nan`)
+        let pushed = gv::catch(|| -> gluon::vm::Result<(gvw::Gv, Result<T, String>)> {
+            let mut ctx = vm.current_context();
+            x.clone().vm_push(&mut ctx)?;
+            let v = ctx.pop();
+            let g = walk(&vm, (*v).clone());
+            let back = gv::catch(|| T::from_value(&vm, (*v).clone()));
+            Ok((g, back))
+        });
         let (gvs, back) = match pushed {
-            Ok(Ok(rooted)) => {
-                let g = walk(&vm, rooted.get_variant());
+            Ok(Ok((g, back))) => {
                 if let Err(blame) = x.conforms(&g) {
                     cx.out.oracle_fail(
                         &format!("shape:push:{}", blame),
@@ -220,7 +247,6 @@ where
                         replay("push"),
                     );
                 }
-                let back = gv::catch(|| T::from_value(&vm, rooted.get_variant()));
                 let b = match back {
                     Ok(y) => {
                         if !y.same(x) {
@@ -435,13 +461,19 @@ where
         }
         let val = x.val();
         let replay = |op: &str| json!({"type": name, "index": i, "op": op, "val": val});
-        // Ser
+        // Ser, then De of what Ser pushed
         let mut ser_ok = false;
-        let pushed = gv::catch(|| Ser(x.clone()).marshal::<&Thread>(&vm));
+        let pushed = gv::catch(|| -> gluon::vm::Result<(gvw::Gv, Result<gluon::vm::Result<T>, String>)> {
+            let mut ctx = vm.current_context();
+            Ser(x.clone()).vm_push(&mut ctx)?;
+            let v = ctx.pop();
+            let g = walk(&vm, (*v).clone());
+            let r = gv::catch(|| de::from_value::<T>(&vm, (*v).clone(), &typ));
+            Ok((g, r))
+        });
         let payload = match &pushed {
-            Ok(Ok(rooted)) => {
-                let g = walk(&vm, rooted.get_variant());
-                match x.conforms(&g) {
+            Ok(Ok((g, _))) => {
+                match x.conforms(g) {
                     Ok(()) => ser_ok = true,
                     Err(blame) => cx.out.oracle_fail(
                         &format!("ser-shape:{}", blame),
@@ -477,10 +509,8 @@ where
         cx.out.count("op:ser");
         cx.out.class(format!("ser|{}|{}", name, skeleton(&val)));
         cx.out.case(&format!("ser {}", val), &payload);
-        // Ser -> De
-        if let Ok(Ok(rooted)) = &pushed {
-            let r = gv::catch(|| de::from_value::<T>(&vm, rooted.get_variant(), &typ));
-            let verdict = de_verdict(&r, x);
+        if let Ok(Ok((_, r))) = &pushed {
+            let verdict = de_verdict(r, x);
             if cx.verbose {
                 println!("ser->de {:?}", verdict);
             }
@@ -500,8 +530,13 @@ where
             }
         }
         // Pushable -> De
-        if let Ok(Ok(rooted)) = gv::catch(|| x.clone().marshal::<&Thread>(&vm)) {
-            let r = gv::catch(|| de::from_value::<T>(&vm, rooted.get_variant(), &typ));
+        let r = gv::catch(|| -> gluon::vm::Result<Result<gluon::vm::Result<T>, String>> {
+            let mut ctx = vm.current_context();
+            x.clone().vm_push(&mut ctx)?;
+            let v = ctx.pop();
+            Ok(gv::catch(|| de::from_value::<T>(&vm, (*v).clone(), &typ)))
+        });
+        if let Ok(Ok(r)) = r {
             let verdict = de_verdict(&r, x);
             if cx.verbose {
                 println!("push->de {:?}", verdict);
@@ -704,10 +739,68 @@ let sh : Shape = Rect { w = 3, h = 4 }
     req!(FunctionRef<fn(f64) -> f64>, "Float -> Float".into(), "".into(), |_| "fn".into());
 }
 
+/// Child process: keep a NaN float in a `RootedValue` (what `Pushable::marshal`, `run_expr::<T>` and
+/// `OpaqueValue` do) and drop it.
+fn child(mode: &str) {
+    let vm = gv::vm::new_vm();
+    match mode {
+        "nan-marshal" => {
+            let r = f64::NAN.marshal::<&Thread>(&vm).unwrap();
+            let ok = match r.get_variant().as_ref() {
+                api::ValueRef::Float(f) => f.is_nan(),
+                _ => false,
+            };
+            drop(r);
+            println!("{}", if ok { "ok" } else { "not-nan" });
+        }
+        "one-marshal" => {
+            let r = 1.5f64.marshal::<&Thread>(&vm).unwrap();
+            drop(r);
+            println!("ok");
+        }
+        "nan-run-expr" => {
+            let (x, _) = vm.run_expr::<f64>("c11_nan", "0.0 #Float/ 0.0").unwrap();
+            println!("{}", if x.is_nan() { "ok" } else { "not-nan" });
+        }
+        "nan-f32-run-expr" => {
+            let (x, _) = vm.run_expr::<f32>("c11_nan", "0.0 #Float/ 0.0").unwrap();
+            println!("{}", if x.is_nan() { "ok" } else { "not-nan" });
+        }
+        _ => println!("unknown-mode"),
+    }
+}
+
+fn run_children(cx: &mut Cx) {
+    if cx.only.is_some() {
+        return;
+    }
+    for mode in ["one-marshal", "nan-marshal", "nan-run-expr", "nan-f32-run-expr"] {
+        let e = gv::child::run(&["--child", mode], b"", std::time::Duration::from_secs(120));
+        let ok = matches!(&e, gv::child::Exit::Ok(s) if s.trim() == "ok");
+        cx.out.count(&format!("child:{}:{}", mode, e.class()));
+        cx.out.class(format!("child|{}|{}", mode, e.class()));
+        if !ok {
+            let detail = match &e {
+                gv::child::Exit::Code(_, _, err) | gv::child::Exit::Signal(_, _, err) => norm_err(err.lines().next().unwrap_or("")),
+                gv::child::Exit::Ok(s) => s.trim().to_string(),
+                gv::child::Exit::Timeout(_) => "timeout".into(),
+            };
+            cx.out.oracle_fail(
+                "rooted-value:nan-float",
+                &format!("a NaN float handed over through a RootedValue ({}) does not come back: {} {}", mode, e.class(), detail),
+                json!({"op": "child", "mode": mode}),
+            );
+        }
+    }
+}
+
 fn main() {
-    eprintln!("start");
     let args = Args::parse();
-    eprintln!("parsed");
+    if let Some(i) = args.extra.iter().position(|a| a == "--child") {
+        child(args.extra.get(i + 1).map(|s| s.as_str()).unwrap_or(""));
+        return;
+    }
+
     let mut seed = args.seed;
     let mut only = None;
     if let Some(p) = &args.replay {
@@ -722,11 +815,15 @@ fn main() {
         }
     }
     let tier_n = if args.thorough() || only.is_some() { 400 } else { 40 };
-    let vm = gv::vm::new_vm();
-    vm.load_script("c11t", TYPES_SRC).unwrap_or_else(|e| panic!("c11t: {}", e));
+    let vm = match gv::catch(|| gv::vm::new_vm()) { Ok(v) => v, Err(e) => { eprintln!("new_vm: {}", e); std::process::exit(3) } };
+    vm.load_script("c11t", TYPES_SRC).unwrap_or_else(|e| { eprintln!("c11t: {}", e); std::process::exit(3) });
     vm.run_expr::<OpaqueValue<&Thread, Hole>>("c11_pre", "let _ = import! std.map\nlet _ = import! std.types\n()")
-        .unwrap_or_else(|e| panic!("preload: {}", e));
-    gv::quiet_panics();
+        .unwrap_or_else(|e| { eprintln!("preload: {}", e); std::process::exit(3) });
+    if std::env::var("C11_DEBUG").is_ok() {
+        std::panic::set_hook(Box::new(|i| eprintln!("PANIC {}", i)));
+    } else {
+        gv::quiet_panics();
+    }
     let verbose = only.is_some();
     let mut cx = Cx { vm, out: Out::new(&args.out), seed, n_random: tier_n, only, verbose };
 
@@ -758,6 +855,7 @@ fn main() {
           u64 => i64, u64 => i32, u32 => i16, usize => u16, isize => u32, i32 => char, u32 => char,
           f64 => f32, f32 => f64, char => u32, char => i16, i16 => u64, i32 => u64);
     run_globals(&mut cx);
+    run_children(&mut cx);
     cx.out.stats.insert("types".into(), serde_json::Value::from(68u64));
     cx.out.finish();
 }
